@@ -3,6 +3,7 @@
    Statements only; every proof is in Proofs/Normalizer.v. *)
 From Coq Require Import String List ZArith Bool.
 From BV Require Import Base.Prelude Pure.Normalizer Pure.NormalizerSpec Proofs.Normalizer Proofs.NormalizerB.
+From BVgen Require TiledTables.
 Import ListNotations.
 Open Scope string_scope.
 Open Scope list_scope.
@@ -221,6 +222,29 @@ Theorem C35_c_backup_exactly_once_in_order :
     end.
 Proof. exact backup_exactly_once_in_order. Qed.
 Print Assumptions C35_c_backup_exactly_once_in_order.
+
+(* What "every document of the run" needs from the code: the buffer bound must cover the run.
+   [TiledTables.cb_default_maxlen] is the default `maxlen` of _ConditionalBackup.__init__ - the value
+   TiledWriter uses, it passes none - re-read from the source on every run (harness/tables.py).
+   With the default bound, every run of at most that many documents is handed over completely,
+   wherever the primary fails first. *)
+Theorem C35_c_default_buffer_covers_the_run :
+  forall (D : Type) (nb b : nat) (docs : list D) (raises : list bool), b < nb ->
+    (N.of_nat (List.length docs) <= TiledTables.cb_default_maxlen)%N ->
+    let log := snd (cb_run D TiledTables.cb_default_maxlen nb (cb0 D) docs raises) in
+    match first_failure (List.length docs) raises with
+    | None => received_by D b log = []
+    | Some _ => received_by D b log = docs
+    end.
+Proof. intros D nb b docs raises. exact (backup_whole_run D TiledTables.cb_default_maxlen nb b docs raises). Qed.
+Print Assumptions C35_c_default_buffer_covers_the_run.
+
+(* The bound the code has today must cover the runs this check explores (25 000 documents, i.e. more
+   than two batches of TiledTables.batch_size rows - the primary typically fails when a batch is
+   flushed or at stop); this stops building when the default is lowered below that. *)
+Example C35_c_default_covers_explored_runs :
+  (25000 <= TiledTables.cb_default_maxlen)%N /\ (2 * TiledTables.batch_size < 25000)%Z.
+Proof. split; vm_compute; [discriminate | reflexivity]. Qed.
 
 Example C35_c_nonvacuous :
   first_failure 4 [false; false; true; false] = Some 2 /\ (N.of_nat 3 <= 1000000)%N /\
